@@ -11,7 +11,7 @@ changes what it computes refutes these theorems; one that keeps the meaning and 
 (These replace the text ties `shape:topological_sort` / `shape:graph_has_cycle`.)
 -/
 import PrimaiteModel.Model.RewardGraphLang
-import PrimaiteModel.Gen.Reward
+import PrimaiteModel.Gen.RewardGraph
 import PrimaiteModel.Lemmas.RewardGraphTop
 namespace Primaite.RewardGraph.Lang
 open Primaite.RewardGraph
@@ -19,8 +19,8 @@ open Primaite.RewardGraph
 variable {α : Type} [DecidableEq α]
 
 /-- the translated functions (short names) -/
-abbrev FT : Fn := Primaite.Gen.Reward.fn_topological_sort
-abbrev FC : Fn := Primaite.Gen.Reward.fn_graph_has_cycle
+abbrev FT : Fn := Primaite.Gen.RewardGraph.fn_topological_sort
+abbrev FC : Fn := Primaite.Gen.RewardGraph.fn_graph_has_cycle
 
 /-- the containers of `topological_sort`: `visited`, `stack` -/
 def tcs (st : List α × List α) : Conts α := [("c0", (true, st.1)), ("c1", (false, st.2))]
@@ -51,8 +51,8 @@ theorem topo_inner (g : Graph α) : ∀ (d : Nat) (st : List α × List α) (n :
     generalize runInner g FT d = call at hl ⊢
     simp only [tcs] at hl
     by_cases hv : n ∈ vis
-    · simp [FT, Primaite.Gen.Reward.fn_topological_sort, exec, evalCond, tcs, tdfs, hv, List.lookup]
-    · simp [FT, Primaite.Gen.Reward.fn_topological_sort, exec, evalCond, tcs, tdfs, hv, List.lookup, put] at hl ⊢
+    · simp [FT, Primaite.Gen.RewardGraph.fn_topological_sort, exec, evalCond, tcs, tdfs, hv, List.lookup]
+    · simp [FT, Primaite.Gen.RewardGraph.fn_topological_sort, exec, evalCond, tcs, tdfs, hv, List.lookup, put] at hl ⊢
       simp [hl, List.lookup, put]
 
 /-- interpreting the translated `topological_sort` on ANY graph, recursion unfolded to ANY depth `d`, returns the model's
@@ -63,7 +63,7 @@ theorem topo_run (g : Graph α) (d : Nat) :
   simp only [runFn]
   generalize runInner g FT d = call at hl ⊢
   simp only [tcs] at hl
-  simp [FT, Primaite.Gen.Reward.fn_topological_sort, exec, put, List.lookup] at hl ⊢
+  simp [FT, Primaite.Gen.RewardGraph.fn_topological_sort, exec, put, List.lookup] at hl ⊢
   simp [hl, List.lookup, topoSortF]
 
 /-! ### `graph_has_cycle` -/
@@ -145,9 +145,9 @@ theorem cyc_inner (g : Graph α) : ∀ (d : Nat) (st : CSt α) (n : α),
     simp only [runInner]
     generalize runInner g FC d = call at hl ⊢
     by_cases hc : n ∈ cur
-    · simp [FC, Primaite.Gen.Reward.fn_graph_has_cycle, exec, evalCond, ccs, cdfs, hc, List.lookup, rv]
+    · simp [FC, Primaite.Gen.RewardGraph.fn_graph_has_cycle, exec, evalCond, ccs, cdfs, hc, List.lookup, rv]
     · by_cases hv : n ∈ vis
-      · simp [FC, Primaite.Gen.Reward.fn_graph_has_cycle, exec, evalCond, ccs, cdfs, hc, hv, List.lookup, rv]
+      · simp [FC, Primaite.Gen.RewardGraph.fn_graph_has_cycle, exec, evalCond, ccs, cdfs, hc, hv, List.lookup, rv]
       · have hin : n ∈ (loopE (cdfs g d) (n :: vis, n :: cur) (nbrs g n)).2.2 := by
           have hloop : ∀ (ms : List α) (st : CSt α), ∀ x ∈ st.2, x ∈ (loopE (cdfs g d) st ms).2.2 := by
             intro ms
@@ -161,7 +161,7 @@ theorem cyc_inner (g : Graph α) : ∀ (d : Nat) (st : CSt α) (n : α),
               · exact ihm _ x (hsub st m x hx)
           exact hloop _ _ n (by simp)
         simp only [ccs] at hl
-        simp [FC, Primaite.Gen.Reward.fn_graph_has_cycle, exec, evalCond, ccs, cdfs, hc, hv, List.lookup, put, rv] at hl ⊢
+        simp [FC, Primaite.Gen.RewardGraph.fn_graph_has_cycle, exec, evalCond, ccs, cdfs, hc, hv, List.lookup, put, rv] at hl ⊢
         simp only [hl]
         by_cases hb : (loopE (cdfs g d) (n :: vis, n :: cur) (nbrs g n)).1 = true
         · simp [hb]
@@ -181,7 +181,7 @@ theorem cyc_run (g : Graph α) (d : Nat) :
   simp only [runFn]
   generalize runInner g FC d = call at hl ⊢
   simp only [ccs] at hl
-  simp [FC, Primaite.Gen.Reward.fn_graph_has_cycle, exec, put, List.lookup] at hl ⊢
+  simp [FC, Primaite.Gen.RewardGraph.fn_graph_has_cycle, exec, put, List.lookup] at hl ⊢
   simp only [hl, hasCycleF]
   by_cases hb : (loopE (cdfs g d) ([], []) (keys g)).1 = true
   · simp [hb]
@@ -193,26 +193,26 @@ theorem cyc_run (g : Graph α) (d : Nat) :
 neighbour order, dangling / repeated neighbours), interpreting the translated body with the model's fuel returns the list
 `topoSort g` — about which `C10_topo_deps_first`, `C10_topo_nodup`, `C10_graph_order_irrelevant` are proved. -/
 theorem C10_gen_topological_sort (g : Graph α) :
-    runFn g Primaite.Gen.Reward.fn_topological_sort (fuelFor g) = .ok (.list (topoSort g)) := topo_run g (fuelFor g)
+    runFn g Primaite.Gen.RewardGraph.fn_topological_sort (fuelFor g) = .ok (.list (topoSort g)) := topo_run g (fuelFor g)
 
 /-- the same at every unfolding depth (the interpretation and the model agree step by step, not only at the end) -/
 theorem C10_gen_topological_sort_depth (g : Graph α) (d : Nat) :
-    runFn g Primaite.Gen.Reward.fn_topological_sort d = .ok (.list (topoSortF g d)) := topo_run g d
+    runFn g Primaite.Gen.RewardGraph.fn_topological_sort d = .ok (.list (topoSortF g d)) := topo_run g d
 
 /-- **`graph_has_cycle` as translated from the source IS the model's `hasCycle`** (for every graph) — the function of
 `C10_has_cycle_sound_complete` (`= true ↔ ∃ u, Path g u u`), `C10_cyclic_rejected`, `C10_acyclic_accepted`. In particular the
 translated body never raises: `currently_visiting.remove(node)` always finds `node` (`cdfs_cur_sub`). -/
 theorem C10_gen_graph_has_cycle (g : Graph α) :
-    runFn g Primaite.Gen.Reward.fn_graph_has_cycle (fuelFor g) = .ok (.bool (hasCycle g)) := cyc_run g (fuelFor g)
+    runFn g Primaite.Gen.RewardGraph.fn_graph_has_cycle (fuelFor g) = .ok (.bool (hasCycle g)) := cyc_run g (fuelFor g)
 
 theorem C10_gen_graph_has_cycle_depth (g : Graph α) (d : Nat) :
-    runFn g Primaite.Gen.Reward.fn_graph_has_cycle d = .ok (.bool (hasCycleF g d)) := cyc_run g d
+    runFn g Primaite.Gen.RewardGraph.fn_graph_has_cycle d = .ok (.bool (hasCycleF g d)) := cyc_run g d
 
 /-- consequently: the translated `graph_has_cycle` answers `True` exactly on the graphs with a cycle, and on every other graph the
 translated `topological_sort` returns a dependencies-first order (statement of the property, on the translated code) -/
 theorem C10_gen_graph_functions_correct (g : Graph α) :
-    (runFn g Primaite.Gen.Reward.fn_graph_has_cycle (fuelFor g) = .ok (.bool true) ↔ ∃ u, Path g u u) ∧
-    ((¬ ∃ u, Path g u u) → ∃ l, runFn g Primaite.Gen.Reward.fn_topological_sort (fuelFor g) = .ok (.list l) ∧ DepsFirst g l ∧
+    (runFn g Primaite.Gen.RewardGraph.fn_graph_has_cycle (fuelFor g) = .ok (.bool true) ↔ ∃ u, Path g u u) ∧
+    ((¬ ∃ u, Path g u u) → ∃ l, runFn g Primaite.Gen.RewardGraph.fn_topological_sort (fuelFor g) = .ok (.list l) ∧ DepsFirst g l ∧
       ∀ k ∈ keys g, k ∈ l) := by
   rw [C10_gen_graph_has_cycle, C10_gen_topological_sort]
   refine ⟨?_, fun h => ?_⟩
@@ -240,10 +240,10 @@ def asList : Except Err (RVal α) → Option (List α) | .ok (.list l) => some l
 def asBool : Except Err (RVal α) → Option Bool | .ok (.bool b) => some b | _ => none
 def asErr : Except Err (RVal α) → Option Err | .error e => some e | _ => none
 def exDiamond : Graph String := [("top", ["left", "right"]), ("left", ["bottom"]), ("right", ["bottom"]), ("bottom", [])]
-example : asList (runFn exDiamond Primaite.Gen.Reward.fn_topological_sort (fuelFor exDiamond))
+example : asList (runFn exDiamond Primaite.Gen.RewardGraph.fn_topological_sort (fuelFor exDiamond))
     = some ["bottom", "left", "right", "top"] := by decide
-example : asBool (runFn exDiamond Primaite.Gen.Reward.fn_graph_has_cycle (fuelFor exDiamond)) = some false := by decide
-example : asBool (runFn ([("a", ["b"]), ("b", ["a"])] : Graph String) Primaite.Gen.Reward.fn_graph_has_cycle 3) = some true := by decide
+example : asBool (runFn exDiamond Primaite.Gen.RewardGraph.fn_graph_has_cycle (fuelFor exDiamond)) = some false := by decide
+example : asBool (runFn ([("a", ["b"]), ("b", ["a"])] : Graph String) Primaite.Gen.RewardGraph.fn_graph_has_cycle 3) = some true := by decide
 example : asList (runFn exDiamond
     { param := "p",
       inner := .seq (.ite (.isIn "p" "c0") .retNone .pass) (.seq (.add "c0" "p") (.seq (.append "c1" "p") (.forNbrs "v0" "p" (.callS "v0")))),
